@@ -185,7 +185,11 @@ class KGLambda:
     def __init__(self, fn, args=None, provide_klong=False, wildcard=False):
         self.fn = fn
         params = args or safe_inspect(fn)
-        self.args = [reserved_fn_symbol_map[x] for x in reserved_fn_args if x in params]
+        # The evaluated arguments are bound to x, y, z by position (_eval_fn), so a callable
+        # with n parameters named from x, y, z takes the first n of them, whatever its own
+        # names and their order are (lambda y: ... is a monad receiving the first argument).
+        n_args = sum(1 for x in reserved_fn_args if x in params)
+        self.args = reserved_fn_symbols[:n_args]
         self._provide_klong = provide_klong or 'klong' in params
         self._wildcard = wildcard
 
